@@ -120,8 +120,22 @@ fn feature_of(fid: usize, scs: &[Value], delay_ms: u64) -> gherkin::Feature {
     f
 }
 
+static HOOK_CALLS: std::sync::atomic::AtomicU64 = std::sync::atomic::AtomicU64::new(0);
+static HOOK_GEN: std::sync::atomic::AtomicU64 = std::sync::atomic::AtomicU64::new(0);
+
 fn one_run(case: &Value) -> Value {
     ST.with(|s| *s.borrow_mut() = St::default());
+    // C10 on the real clock: a counting process panic hook (only calls of this run's generation count) is in place before the
+    // run; nothing may reach it while the run is in progress — also across the REAL waits for retry deadlines — and it must be
+    // back afterwards
+    HOOK_CALLS.store(0, Ordering::SeqCst);
+    let outer_hook = std::panic::take_hook();
+    let generation = HOOK_GEN.fetch_add(1, Ordering::SeqCst) + 1;
+    std::panic::set_hook(Box::new(move |_| {
+        if HOOK_GEN.load(Ordering::SeqCst) == generation {
+            HOOK_CALLS.fetch_add(1, Ordering::SeqCst);
+        }
+    }));
     let delay_ms = case["delay_ms"].as_u64().unwrap_or(300);
     let first = feature_of(1, case["scenarios"].as_array().map_or(&[][..], Vec::as_slice), delay_ms);
     let late_scs = case["late"].as_array().cloned().unwrap_or_default();
@@ -193,7 +207,14 @@ fn one_run(case: &Value) -> Value {
     }
     drop(evs);
     verif_clock::set_real(false);
-    json!({"events": out, "max_poll_ms": max_poll, "late_at_ms": late_at, "parsing_finished_ms": pf_at,
+    let during = HOOK_CALLS.load(Ordering::SeqCst);
+    let _ = std::thread::spawn(|| {
+        let _ = std::panic::catch_unwind(|| std::panic::panic_any(0u8));
+    })
+    .join();
+    let after_marker = HOOK_CALLS.load(Ordering::SeqCst);
+    std::panic::set_hook(outer_hook);
+    json!({"hook_calls_during_run": during, "hook_restored": !done || after_marker == during + 1, "events": out, "max_poll_ms": max_poll, "late_at_ms": late_at, "parsing_finished_ms": pf_at,
            "terminated": done, "delay_ms": delay_ms})
 }
 
